@@ -442,13 +442,20 @@ func (s *Set) LoopSpecs() func(fn *ssa.Function, ord int) *sym.LoopSpec {
 				args = append(args, fr.Env[p])
 			}
 			vars := fc.vars(fx, args, nil)
+			paramNames := map[string]bool{}
+			for k := range vars {
+				paramNames[k] = true
+			}
+			phiNames := map[string]bool{}
 			// loop-carried locals: header phis and allocs by source name
 			for v, val := range fr.Env {
 				switch x := v.(type) {
 				case *ssa.Phi:
 					if x.Comment != "" {
-						if _, taken := vars[x.Comment]; !taken || x.Block().Dominates(x.Block()) {
+						// prefer the phi of this loop's header over other phis of the same variable
+						if !phiNames[x.Comment] || (ord < len(sym.LoopHeaders(fn)) && x.Block() == sym.LoopHeaders(fn)[ord]) {
 							vars[x.Comment] = TV{V: val, T: x.Type()}
+							phiNames[x.Comment] = true
 						}
 					}
 				case *ssa.Alloc:
@@ -460,6 +467,40 @@ func (s *Set) LoopSpecs() func(fn *ssa.Function, ord int) *sym.LoopSpec {
 								}
 							}
 						}
+					}
+				}
+			}
+			// loop-invariant locals: source names bound (DebugRef) in blocks that strictly dominate the header
+			hs := sym.LoopHeaders(fn)
+			if ord < len(hs) {
+				h := hs[ord]
+				for _, b := range fn.Blocks {
+					if b == h || !b.Dominates(h) {
+						continue
+					}
+					for _, in := range b.Instrs {
+						dr, ok := in.(*ssa.DebugRef)
+						if !ok || dr.IsAddr {
+							continue
+						}
+						id, ok := dr.Expr.(*ast.Ident)
+						if !ok {
+							continue
+						}
+						if _, taken := vars[id.Name]; taken {
+							if _, isParam := paramNames[id.Name]; isParam || phiNames[id.Name] {
+								continue
+							}
+						}
+						var val sym.Value
+						if c, isC := dr.X.(*ssa.Const); isC {
+							val = fx.ConstVal(c)
+						} else if v, ok := fr.Env[dr.X]; ok {
+							val = v
+						} else {
+							continue
+						}
+						vars[id.Name] = TV{V: val, T: dr.X.Type()}
 					}
 				}
 			}
